@@ -29,7 +29,7 @@ import (
 
 const P = "C20"
 
-var classes = []string{"accepted", "already-in-mempool", "already-known", "already-confirmed", "rejected-generic", "rejected-insufficient-fee", "rejected-mempool-conflict", "rejected-any-node-reason", "subscription-failure-1", "subscription-failure-2"}
+var classes = []string{"accepted", "already-in-mempool", "already-known", "already-confirmed", "rejected-generic", "rejected-insufficient-fee", "rejected-mempool-conflict", "rejected-any-node-reason", "rejected-btcd-text", "subscription-failure-1", "subscription-failure-2"}
 
 // every rejection reason a node can give (chain.RPCErr), except the three
 // answers that mean the node has the transaction
@@ -44,6 +44,20 @@ var nodeReasons = func() []error {
 	return out
 }()
 var reasonCtr int64
+
+// literal texts with which a btcd node (and neutrino, which relays btcd's
+// answers) REFUSES a transaction; each reaches the wallet through the real
+// error mapping of the chain package (chain.NeutrinoClient.MapRPCErr).  That the
+// node does not have the transaction after any of them is btcd's behaviour, not
+// something read off the mapping under test.
+var btcdRefusals = []string{
+	"output 7d3c...:1 already spent in mempool: output already spent in mempool",
+	"orphan transaction 5c1e... references outputs of unknown or fully-spent transaction",
+	"transaction 9a0b... has 120 fees which is under the required amount of 250",
+	"output 11aa...:0 already spent by transaction 22bb... in the memory pool",
+	"replacement transaction 33cc... has an insufficient fee rate: needs more than 5, has 2",
+	"transaction 44dd... has insufficient priority (1200 <= 57600000)",
+}
 
 func answerFor(class string) error {
 	switch class {
@@ -61,6 +75,8 @@ func answerFor(class string) error {
 		return chain.ErrMempoolConflict
 	case "rejected-any-node-reason":
 		return nodeReasons[int(atomic.AddInt64(&reasonCtr, 1))%len(nodeReasons)]
+	case "rejected-btcd-text":
+		return fmt.Errorf("-26: TX rejected: %s", btcdRefusals[int(atomic.AddInt64(&reasonCtr, 1))%len(btcdRefusals)])
 	}
 	return nil
 }
@@ -215,6 +231,10 @@ func runWallet(r *evid.Run, dir string, idx int, cs int64) {
 		sent0 := len(ch.SentTxs())
 		ans := answerFor(class)
 		ch.SendHook = func(tx *wire.MsgTx) error { return ans }
+		ch.MapErr = nil
+		if class == "rejected-btcd-text" {
+			ch.MapErr = (&chain.NeutrinoClient{}).MapRPCErr
+		}
 		ch.NotifyHook = nil
 		if strings.HasPrefix(class, "subscription-failure") {
 			k := 1
@@ -290,7 +310,7 @@ func runWallet(r *evid.Run, dir string, idx int, cs int64) {
 			tx = parent
 			sendErr = f.W.PublishTransaction(parent, "")
 		}
-		ch.SendHook, ch.NotifyHook = nil, nil
+		ch.SendHook, ch.NotifyHook, ch.MapErr = nil, nil, nil
 		ch.Barrier()
 		after := f.Snapshot()
 		if leased != nil {
